@@ -296,10 +296,13 @@ def gen_ops(rng, m, nops, mode="unchecked"):
                                               " ".join(str(rng.randrange(1 << 20)) for _ in range(maxu))))
         elif r < 0.92:
             ops.append("op unplanr %d" % rng.randrange(1 << 20))
-        elif r < 0.96:
+        elif r < 0.95:
             ops.append("op copy")
-        else:
+        elif r < 0.98:
             ops.append("op switch %d" % rng.randrange(0, 3))
+        else:
+            ops.append("op snapall")
+    ops.append("op snapall")
     return ops
 
 
